@@ -45,11 +45,26 @@ def run_vertex_count(chk, F):
                     count_var = ir.show(args[3])
         if count_var is None:
             raise AnalysisBroken('C04: graph construction with a vertex count not found in %s' % where)
-        loops = [x for x in ir.walk(f['body']) if x.get('k') == 'ForStmt' and 'points' in ir.show(x.get('cond'))
+        loops = [x for x in ir.walk(f['body']) if x.get('k') == 'ForStmt'
                  and ir.contains(x.get('body'), lambda y: y.get('k') == 'ForStmt')]
         if len(loops) != 1:
             raise AnalysisBroken('C04: outer loop over the points not found in %s' % where)
         lp = loops[0]
+        # the loop ends when the points are exhausted and for no other reason: its condition is one comparison of the
+        # iterator with the end of the range (no second conjunct that stops it earlier)
+        cnd = ir.skipcasts(lp.get('cond'))
+        while cnd is not None and cnd.get('k') in ('ParenExpr', 'ExprWithCleanups'):
+            cnd = ir.skipcasts(cnd['c'][0])
+        single = cnd is not None and cnd.get('k') in ('BinaryOperator', 'CXXOperatorCallExpr') and \
+            cnd.get('op') in ('!=', '<') and 'end' in ir.show(cnd)
+        if not single:
+            chk.ob('E2n-vertex-count', '%s: the loop that counts the points runs until the range is exhausted' % f['name'],
+                   '%s:%s' % (rel(f['file']), lp.get('l')), False,
+                   'the loop condition `%s` is not the single test "iterator != end of the points": the loop can stop '
+                   'before the last point, which is then not counted as a vertex (it only reappears if an edge names '
+                   'it)' % ir.show(lp.get('cond'))[:80],
+                   key='E2n|%s|vertex-count|%s' % (f['name'], rel(f['file']).split('/')[-1]))
+            continue
 
         def cl(x, v=count_var):
             if x.get('k') == 'UnaryOperator' and x.get('op') == '++' and ir.show(x['c'][0]) == v:
